@@ -95,8 +95,19 @@ def run(chk, tier):
             if r["rc"] == 0 or not has_err:
                 prob = ("accepts-ill-typed", cat)
             else:
-                pos = [int(n) for n in re.findall(r"\[L(\d+) C\d+\]", r["text"])]
-                if not pos or not all(1 <= n <= r["lines"] for n in pos):
+                # positions are given under a heading that names the file; a message about the expansion of a library
+                # macro (e.g. `rep`) is positioned in the file that defines the macro: only positions in the program's own
+                # file are compared with its length
+                pos, own, cur = [], [], "p.as"
+                for line in r["text"].split("\n"):
+                    h = re.match(r'^"([^"]*)", line \d+:', line)
+                    if h:
+                        cur = os.path.basename(h.group(1))
+                    for n in re.findall(r"\[L(\d+) C\d+\]", line):
+                        pos.append(int(n))
+                        if cur == "p.as":
+                            own.append(int(n))
+                if not pos or not all(1 <= n <= r["lines"] for n in own):
                     prob = ("no-source-position", cat)
                 elif r["present"]:
                     prob = ("output-after-error", ",".join(r["present"]))
